@@ -408,6 +408,88 @@ def _use_succ(ex):
         ex.axioms += specz3.succ_axioms()
 
 
+def sp_gc_window_ok(ex, e, st):
+    """gc_window_ok(filter, s, w): window w of s (observed length) has its G+C count within the configured bounds."""
+    f, s_ = ex.ev(e.args[0], st), _seq(ex.ev(e.args[1], st))
+    w = _int(ex.ev(e.args[2], st))
+    k = _int(f.fields["observed_length"])
+    gc = f.fields["gc_range"]
+    fm = z3.Function("fmulr", z3.RealSort(), z3.IntSort(), z3.RealSort())
+    lo, hi = gc.items[0].term, gc.items[1].term
+    return z3.And(z3.Not(z3.ToReal(_gc(s_, w, w + k)) > fm(hi, k)), z3.Not(z3.ToReal(_gc(s_, w, w + k)) < fm(lo, k)))
+
+
+def sp_comp(ex, e, st):
+    """comp(c): Watson-Crick complement of a nucleotide character (A<->T, C<->G)."""
+    c = ex.ev(e.args[0], st)
+    c = c.at(0) if isinstance(c, Seq) else _int(c)
+    return z3.If(c == 65, iv(84), z3.If(c == 84, iv(65), z3.If(c == 67, iv(71), z3.If(c == 71, iv(67), c))))
+
+
+def sp_chr(ex, e, st):
+    c = ex.ev(e.args[0], st)
+    return c.at(0) if isinstance(c, Seq) else _int(c)
+
+
+def sp_occurs(ex, e, st):
+    m, s_ = _seq(ex.ev(e.args[0], st)), _seq(ex.ev(e.args[1], st))
+    return specz3.occ(m.arr, m.start, m.n, s_.arr, s_.start, s_.n)
+
+
+def _rc_code(ex, m):
+    """the reverse complement as the code computes it: four single-character replaces, reverse, upper."""
+    ex.use_str_axioms()
+    a = m.arr
+    for x, y in (("A", "t"), ("C", "g"), ("G", "c"), ("T", "a")):
+        a = specz3.repl(a, iv(ord(x)), iv(ord(y)))
+    return Seq("str", "char", specz3.upper(specz3.rev(a, m.start, m.n)), m.n)
+
+
+def sp_rc_code(ex, e, st):
+    return _rc_code(ex, _seq(ex.ev(e.args[0], st)))
+
+
+def _gc(s, lo, hi):
+    return specz3.cnt(s.arr, iv(s.delta), add(s.start, lo), add(s.start, hi), iv(67)) + specz3.cnt(s.arr, iv(s.delta), add(s.start, lo), add(s.start, hi), iv(71))
+
+
+def _at(s, lo, hi):
+    return specz3.cnt(s.arr, iv(s.delta), add(s.start, lo), add(s.start, hi), iv(65)) + specz3.cnt(s.arr, iv(s.delta), add(s.start, lo), add(s.start, hi), iv(84))
+
+
+def sp_filter_ok(ex, e, st):
+    """filter_ok(filter, s): the documented whole-sequence verdict of the local filter on s: only A/C/G/T; no nucleotide repeated more than the
+    allowed run; neither a motif nor its reverse complement occurs; every window of the observed length has a G+C count within [lo*k, hi*k]
+    (a shorter string: G+C <= hi*k and A+T <= (1-lo)*k).  Float products are the opaque terms the code itself computes."""
+    from pyvc.sym import FloatV
+    f, s_ = ex.ev(e.args[0], st), _seq(ex.ev(e.args[1], st))
+    k = _int(f.fields["observed_length"])
+    parts = [s_.forall(lambda v: z3.Or(v == 65, v == 67, v == 71, v == 84))]
+    run = f.fields["max_homopolymer_runs"]
+    if not isinstance(run, NoneV):
+        n_ = z3.simplify(z3.If(1 + _int(run) > 0, 1 + _int(run), 0))
+        for ch in "ACGT":
+            parts.append(z3.Not(specz3.occ(z3.K(z3.IntSort(), iv(ord(ch))), iv(0), n_, s_.arr, s_.start, s_.n)))
+    mot = f.fields["undesired_motifs"]
+    if not isinstance(mot, NoneV):
+        for m in mot.items:
+            parts.append(z3.Not(specz3.occ(m.arr, m.start, m.n, s_.arr, s_.start, s_.n)))
+            rc = _rc_code(ex, m)
+            parts.append(z3.Not(specz3.occ(rc.arr, rc.start, rc.n, s_.arr, s_.start, s_.n)))
+    gc = f.fields["gc_range"]
+    if not isinstance(gc, NoneV):
+        fm = z3.Function("fmulr", z3.RealSort(), z3.IntSort(), z3.RealSort())
+        fs = z3.Function("fsubr", z3.IntSort(), z3.RealSort(), z3.RealSort())
+        lo, hi = gc.items[0].term, gc.items[1].term
+        i = z3.Int("w#q")
+        win = z3.ForAll([i], z3.Implies(z3.And(HERE(i), 0 <= i, i < s_.n - k + 1),
+                                        z3.And(z3.Not(z3.ToReal(_gc(s_, i, i + k)) > fm(hi, k)), z3.Not(z3.ToReal(_gc(s_, i, i + k)) < fm(lo, k)))),
+                        patterns=[HERE(i)])
+        short = z3.And(z3.Not(z3.ToReal(_gc(s_, iv(0), s_.n)) > fm(hi, k)), z3.Not(z3.ToReal(_at(s_, iv(0), s_.n)) > fm(fs(iv(1), lo), k)))
+        parts.append(z3.If(s_.n >= k, win, short))
+    return z3.And(*parts)
+
+
 def sp_succ(ex, e, st):
     """succ(v, j, k): the j-th shift successor of vertex v (order k)."""
     _use_succ(ex)
@@ -661,6 +743,6 @@ def sp_accepts(ex, e, st):
 SPEC = {
     "forall": sp_forall, "forall_q": lambda ex, e, st: sp_forall(ex, e, st, expand=False), "exists": lambda ex, e, st: sp_forall(ex, e, st, exists=True), "implies": sp_implies, "old": sp_old,
     "digits": sp_digits, "val": sp_val, "dval": sp_dval, "val2": sp_val2, "canon": sp_canon, "ipow": sp_ipow, "dig": sp_dig,
-    "same": sp_same_seq, "upd": sp_upd, "accepts": sp_accepts, "succ": sp_succ, "shuffled_row": sp_shuffled_row, "rng_is": sp_rng_is, "row_is": sp_row_is, "rdeg": sp_rdeg, "rarc": sp_rarc, "rdigit": sp_rdigit, "is_perm_row": sp_is_perm_row, "row": sp_row, "rwalkv": sp_rwalkv, "A2": sp_A2, "vt_matches": sp_vt_matches, "rwt": sp_rwt, "rlv": sp_rlv, "rhv": sp_rhv, "here": sp_here, "deg": sp_deg, "arc_of_digit": sp_arc_of_digit, "digit_of_arc": sp_digit_of_arc, "is_accessor": sp_is_accessor,
+    "same": sp_same_seq, "upd": sp_upd, "accepts": sp_accepts, "comp": sp_comp, "chr_": sp_chr, "gc_window_ok": sp_gc_window_ok, "occurs": sp_occurs, "rc_code": sp_rc_code, "filter_ok": sp_filter_ok, "succ": sp_succ, "shuffled_row": sp_shuffled_row, "rng_is": sp_rng_is, "row_is": sp_row_is, "rdeg": sp_rdeg, "rarc": sp_rarc, "rdigit": sp_rdigit, "is_perm_row": sp_is_perm_row, "row": sp_row, "rwalkv": sp_rwalkv, "A2": sp_A2, "vt_matches": sp_vt_matches, "rwt": sp_rwt, "rlv": sp_rlv, "rhv": sp_rhv, "here": sp_here, "deg": sp_deg, "arc_of_digit": sp_arc_of_digit, "digit_of_arc": sp_digit_of_arc, "is_accessor": sp_is_accessor,
     "is_table": sp_is_table, "first": sp_first, "second": sp_second, "dec_step": sp_dec_step, "walkv": sp_walkv, "enc_step": sp_enc_step, "fast_step": sp_fast_step, "fast_cells": sp_fast_cells, "floc": sp_floc, "link": sp_link, "wt": sp_wt, "lv": sp_lv, "hv": sp_hv, "ascents": sp_ascents, "nsucc": sp_nsucc, "rsum": sp_rsum, "code": sp_code, "dnav": sp_dnav, "codes": sp_codes, "is_dna": sp_is_dna, "pv": sp_pv, "store": sp_store, "A": sp_A, "D": sp_D, "P": sp_P, "seq_is": sp_seq_is, "seq_is_cons": sp_seq_is_cons, "ite": sp_ite, "isnone": sp_isnone, "cnt": sp_cnt, "ssum": sp_ssum,
 }
